@@ -227,6 +227,7 @@ def distinctness_axioms():
 
 # dict deletion
 dict_del = fn("dict_del", V, V, V)
+set_union = fn("set_union", V, V, V)      # s.update(t) / s | t: membership view
 
 
 def _core2():
@@ -237,6 +238,9 @@ def _core2():
     axiom(T, "dict-del-len", FA([s, k], z3.Implies(is_dictlike(s), z3.And(len_(dict_del(s, k)) == z3.If(has(s, k), len_(s) - 1, len_(s)), is_dictlike(dict_del(s, k)))),
                                 [dict_del(s, k)]))
     axiom(T, "has-len", FA([s, x], z3.Implies(has(s, x), len_(s) >= 1), [has(s, x)]))
+    t_ = const("t_")
+    axiom(T, "set-union-has", FA([s, t_, x], has(set_union(s, t_), x) == z3.Or(has(s, x), has(t_, x)), [has(set_union(s, t_), x)]))
+    axiom(T, "set-union-not-none", FA([s, t_], set_union(s, t_) != NONE, [set_union(s, t_)]))
     v = const("v")
     axiom(T, "containers-not-none", z3.And(EMPTY_DICT != NONE, EMPTY_SEQ != NONE, EMPTY_SET != NONE))
     axiom(T, "dict-set-not-none", FA([s, k, v], dict_set(s, k, v) != NONE, [dict_set(s, k, v)]))
